@@ -428,7 +428,10 @@ func c14Seq(tier string) []SeqJob {
 		}
 		alpha = append(alpha, Op{K: "advance", N: 3000})
 		if compound {
-			alpha = append(alpha, Op{K: "sweep"})
+			// "applier stall": a tombstone for another key keeps the applier busy (it is handed
+			// the tombstone directly), so that a later SetWithTTL waits in the buffer while the
+			// clock moves on and a sweep overtakes it
+			alpha = append(alpha, Op{K: "sweep"}, Op{K: "del", Key: 513}, Op{K: "advance+sweep", N: 3000})
 		} else {
 			alpha = append(alpha, Op{K: "tick"}, Op{K: "advance", N: 1000})
 		}
@@ -470,9 +473,9 @@ func c14Seq(tier string) []SeqJob {
 		out = append(out, SeqJob{Name: name, Spec: spec, Seconds: secs})
 	}
 	if tier == "quick" {
-		mk("seq/1key/ttl{1,12}s/compound-sweep/depth7", []int{1}, []int64{1000, 12000}, 7, 40, true)
-		mk("seq/2keys/ttl{1}s/compound-sweep/depth6", []int{1, 257}, []int64{1000}, 6, 40, true)
-		mk("seq/1key/ttl{1,12}s/shouldupdate-vetoes/compound-sweep/depth7", []int{-1, 1}, []int64{1000, 12000}, 7, 40, true)
+		mk("seq/1key/ttl{1,12}s/compound-sweep/depth6", []int{1}, []int64{1000, 12000}, 6, 40, true)
+		mk("seq/2keys/ttl{1}s/compound-sweep/depth5", []int{1, 257}, []int64{1000}, 5, 40, true)
+		mk("seq/1key/ttl{1,12}s/shouldupdate-vetoes/compound-sweep/depth6", []int{-1, 1}, []int64{1000, 12000}, 6, 40, true)
 	} else {
 		mk("seq/1key/ttl{1,3,12}s/compound-sweep/depth9", []int{1}, []int64{1000, 3000, 12000}, 9, 560, true)
 		mk("seq/2keys/ttl{1,12}s/compound-sweep/depth7", []int{1, 257}, []int64{1000, 12000}, 7, 560, true)
